@@ -18,7 +18,7 @@
 //! monitoring, linking, and message passing.
 
 use crate::errors::{Error, Result};
-use erltf::OwnedTerm;
+use erltf::{BigInt, OwnedTerm};
 use std::convert::TryFrom;
 use std::mem;
 
@@ -330,6 +330,42 @@ pub enum ControlMessage {
     },
 }
 
+/// Unlink ids are positive integers below 2^64: small ones travel as integers,
+/// those of 2^63 and above only fit a big integer.
+fn unlink_id_to_term(id: u64) -> OwnedTerm {
+    match i64::try_from(id) {
+        Ok(small) => OwnedTerm::Integer(small),
+        Err(_) => OwnedTerm::BigInt(BigInt::new(false, id.to_le_bytes().to_vec())),
+    }
+}
+
+fn unlink_id_from_term(term: &OwnedTerm, what: &str) -> Result<u64> {
+    match term {
+        OwnedTerm::Integer(id) if *id >= 0 => Ok(*id as u64),
+        OwnedTerm::Integer(id) => Err(Error::InvalidControlMessage(format!(
+            "{} id must be non-negative: {}",
+            what, id
+        ))),
+        OwnedTerm::BigInt(big)
+            if big.sign.is_positive() && big.digits.iter().skip(8).all(|d| *d == 0) =>
+        {
+            let mut bytes = [0u8; 8];
+            for (slot, digit) in bytes.iter_mut().zip(big.digits.iter()) {
+                *slot = *digit;
+            }
+            Ok(u64::from_le_bytes(bytes))
+        }
+        OwnedTerm::BigInt(_) => Err(Error::InvalidControlMessage(format!(
+            "{} id must be a non-negative integer below 2^64",
+            what
+        ))),
+        _ => Err(Error::InvalidControlMessage(format!(
+            "{} id must be an integer",
+            what
+        ))),
+    }
+}
+
 impl ControlMessage {
     /// Parse a control message from an Erlang term (tuple)
     pub fn from_term(term: &OwnedTerm) -> Result<Self> {
@@ -376,38 +412,20 @@ impl ControlMessage {
             }),
 
             Some(ControlMessageType::UnlinkId) if elements.len() == 4 => {
-                let id_raw = elements[1].as_integer().ok_or_else(|| {
-                    Error::InvalidControlMessage("UNLINK_ID id must be an integer".to_string())
-                })?;
-
-                if id_raw < 0 {
-                    return Err(Error::InvalidControlMessage(format!(
-                        "UNLINK_ID id must be non-negative: {}",
-                        id_raw
-                    )));
-                }
+                let id = unlink_id_from_term(&elements[1], "UNLINK_ID")?;
 
                 Ok(ControlMessage::UnlinkId {
-                    id: id_raw as u64,
+                    id,
                     from_pid: elements[2].clone(),
                     to_pid: elements[3].clone(),
                 })
             }
 
             Some(ControlMessageType::UnlinkIdAck) if elements.len() == 4 => {
-                let id_raw = elements[1].as_integer().ok_or_else(|| {
-                    Error::InvalidControlMessage("UNLINK_ID_ACK id must be an integer".to_string())
-                })?;
-
-                if id_raw < 0 {
-                    return Err(Error::InvalidControlMessage(format!(
-                        "UNLINK_ID_ACK id must be non-negative: {}",
-                        id_raw
-                    )));
-                }
+                let id = unlink_id_from_term(&elements[1], "UNLINK_ID_ACK")?;
 
                 Ok(ControlMessage::UnlinkIdAck {
-                    id: id_raw as u64,
+                    id,
                     from_pid: elements[2].clone(),
                     to_pid: elements[3].clone(),
                 })
@@ -648,7 +666,7 @@ impl ControlMessage {
                 to_pid,
             } => OwnedTerm::Tuple(vec![
                 OwnedTerm::Integer(ControlMessageType::UnlinkId as i64),
-                OwnedTerm::Integer(*id as i64),
+                unlink_id_to_term(*id),
                 from_pid.clone(),
                 to_pid.clone(),
             ]),
@@ -659,7 +677,7 @@ impl ControlMessage {
                 to_pid,
             } => OwnedTerm::Tuple(vec![
                 OwnedTerm::Integer(ControlMessageType::UnlinkIdAck as i64),
-                OwnedTerm::Integer(*id as i64),
+                unlink_id_to_term(*id),
                 from_pid.clone(),
                 to_pid.clone(),
             ]),
@@ -973,7 +991,7 @@ impl ControlMessage {
                 to_pid,
             } => OwnedTerm::Tuple(vec![
                 OwnedTerm::Integer(ControlMessageType::UnlinkId as i64),
-                OwnedTerm::Integer(id as i64),
+                unlink_id_to_term(id),
                 from_pid,
                 to_pid,
             ]),
@@ -984,7 +1002,7 @@ impl ControlMessage {
                 to_pid,
             } => OwnedTerm::Tuple(vec![
                 OwnedTerm::Integer(ControlMessageType::UnlinkIdAck as i64),
-                OwnedTerm::Integer(id as i64),
+                unlink_id_to_term(id),
                 from_pid,
                 to_pid,
             ]),
